@@ -570,7 +570,7 @@ def nontrivial(case):
     return sum(1 for x in cyc if x > 0) >= 2 and any(x == 0 for x in cyc)
 
 
-def run(res, only_cases=None):
+def run(res, only_cases=None, with_eds=True):
     quick = res.tier == 'quick'
     res.classes['empty_top_class_elementary'] = empty_top_class_elementary
     res.trusted += ['hand-written list model coq/theories/Strength/C11Model.v (tied to the code only through the per-run certificates on sampled inputs)',
@@ -620,7 +620,7 @@ def run(res, only_cases=None):
         for g, d in gs:
             goals.append(g)
             descr.append((ci,) + tuple(d))
-    if only_cases is None:
+    if with_eds:
         for g, d in eds_certificates(res.rng, 12 if quick else 60):
             goals.append(g)
             descr.append(d)
@@ -661,7 +661,7 @@ def run(res, only_cases=None):
             stats['relation_raised'] = stats.get('relation_raised', 0) + 1
             res.notes.append('case %d: relations raised %r' % (ci, e))
             res.oblige('relations of case %d could be evaluated' % ci, False, '%r %s' % (e, json.dumps(case, default=str)))
-    if only_cases is None:
+    if with_eds:
         k += eds_relation(res, res.rng, 60 if quick else 600)
     distinct = {json.dumps(c, sort_keys=True, default=str) for c in cases}
     res.add_cases(k + len(goals), nontrivial=sum(1 for s in distinct if nontrivial(json.loads(s))))
@@ -692,5 +692,5 @@ def replay(res, rp):
         return res.finish()
     print('replaying', json.dumps({k: v[k] for k in v if k != 'case'}, default=str)[:600])
     print('case', json.dumps(case, default=str))
-    run(res, only_cases=[case])
+    run(res, only_cases=[case], with_eds=False)
     return res.finish()
